@@ -25,6 +25,7 @@ import (
 	"io"
 	"os"
 	"os/exec"
+	"os/signal"
 	"path/filepath"
 	"regexp"
 	"sort"
@@ -273,6 +274,40 @@ func (h *hist) mkEntry(padLen int) hEntry {
 	*h.ids++
 	id := *h.ids
 	return hEntry{ID: id, Epoch: h.nextEpoch(), Pad: padFor(id, padLen)}
+}
+
+// appendWithWriteError runs one Append under a file-size limit of (size of the active file + k) bytes, so that
+// write(2) takes at most k bytes of the record and fails with EFBIG for the rest (SIGXFSZ ignored). When the Append
+// rotates first, the limit applies to the fresh file. injected=false: the limit could not be set.
+func (h *hist) appendWithWriteError(e hEntry, k int) (err error, injected bool) {
+	var asize int64
+	if _, _, act, _, has := h.wal.VerifStats(); has {
+		if st, _ := os.Stat(filepath.Join(h.dir, act)); st != nil {
+			asize = st.Size()
+		}
+	}
+	var old syscall.Rlimit
+	if syscall.Getrlimit(syscall.RLIMIT_FSIZE, &old) != nil {
+		return nil, false
+	}
+	h.out.Flush()
+	signal.Ignore(syscall.SIGXFSZ)
+	lim := syscall.Rlimit{Cur: uint64(asize) + uint64(k), Max: old.Max}
+	if syscall.Setrlimit(syscall.RLIMIT_FSIZE, &lim) != nil {
+		return nil, false
+	}
+	func() {
+		defer func() {
+			if r := recover(); r != nil {
+				err = fmt.Errorf("panic: %v", r)
+			}
+		}()
+		err = h.wal.Append(e)
+	}()
+	if syscall.Setrlimit(syscall.RLIMIT_FSIZE, &old) != nil {
+		panic("cannot restore RLIMIT_FSIZE")
+	}
+	return err, true
 }
 
 // appendLine performs the append and returns the line to log (so that a fork can be logged before it).
@@ -537,6 +572,31 @@ func runHistory(out *vh.Out, rng *vh.Rng, root string, idx int, p profile, ids *
 				}
 				out.Line("refuse %d %d => %s active=%s asize=%d", e.ID, e.Epoch, res, act, sz)
 				continue
+			}
+			if !last && rng.Chance(1, 16) {
+				// an Append whose WRITE fails part-way (disk full, quota, file-size limit): the operating system has
+				// taken the first bytes of the record and refuses the rest. The Append is not acknowledged; like an
+				// Append refused by the encoder it must not leave a fragment that cuts off what is appended — and
+				// acknowledged — after it. Injected with RLIMIT_FSIZE around the one call (nothing else is written
+				// meanwhile; the log of this harness is flushed before).
+				if err, injected := h.appendWithWriteError(e, 1+rng.Intn(8)); injected {
+					_, _, act, _, has := h.wal.VerifStats()
+					var sz int64
+					if has {
+						if st, _ := os.Stat(filepath.Join(h.dir, act)); st != nil {
+							sz = st.Size()
+						}
+					} else {
+						act = "-"
+					}
+					if err != nil {
+						out.Line("# werr: the next refused append failed in write(2)")
+						out.Line("refuse %d %d => err active=%s asize=%d", e.ID, e.Epoch, act, sz)
+					} else {
+						out.Line("append %d %d %d => ok active=%s asize=%d", e.ID, e.Epoch, encLen(&e), act, sz)
+					}
+					continue
+				}
 			}
 			line, ok, active, asize, l := h.doAppend(e)
 			if ok && active != "" && (last || (p.tornP > 0 && rng.Chance(1, p.tornP))) && *budget > 0 {
